@@ -4,4 +4,4 @@
 id=$1; P=$2; shift 2
 [ -d /tmp/bn/$id ] || { mkdir -p /tmp/bn/$id && (cd /repo && git archive HEAD | tar -x -C /tmp/bn/$id) && (cd /tmp/bn/$id && patch -p1 -s < /verif/benign/$id/patch.diff); }
 mkdir -p /tmp/seedrun; cp /verif/KNOWN_FINDINGS.jsonl /tmp/seedrun/
-/verif/bin/obfsvet -prop $P -repo /tmp/bn/$id -verif /tmp/seedrun "$@" | grep -A4 -E "^(VIOLATED|UNDECIDED)" | grep -v "^--" | cut -c1-900
+${OBFSVET:-/verif/bin/obfsvet} -prop $P -repo /tmp/bn/$id -verif /tmp/seedrun "$@" | grep -A4 -E "^(VIOLATED|UNDECIDED)" | grep -v "^--" | cut -c1-900
